@@ -197,6 +197,22 @@ Proof.
 Qed.
 End FlatSpec.
 
+Lemma app_inj_len {A} (a b c d : list A) : length a = length c -> a ++ b = c ++ d -> a = c /\ b = d.
+Proof.
+  revert c; induction a as [|x a IH]; intros [|y c] L H; simpl in *; try discriminate; [auto|].
+  injection H as -> H. injection L as L. destruct (IH c L H) as [-> ->]. auto.
+Qed.
+
+Lemma conv_of_exact (seg : list fvt) (lf : list sfield) :
+  Forall (fun f => can_nil (sf_ty f) = true) lf ->
+  map (fun fv : fvt => fst (snd fv)) seg = map sf_ty lf ->
+  Forall2 conv_ok (map snd seg) (map sf_ty lf).
+Proof.
+  revert seg; induction lf as [|f r IH]; intros [|[g [t x]] seg] W H; simpl in H; try discriminate; [constructor|].
+  apply Forall_cons_iff in W as [Wf Wr]. injection H as -> H. simpl. constructor; [| now apply IH].
+  split; [apply convertible_refl | intros _; exact Wf].
+Qed.
+
 (* ---------- the flatten stage of the model, by name ---------- *)
 Definition top_names (f : sfield) : list (list str) :=
   names_ty (if sf_anon f then [] else [sf_name f]) (sf_ty f).
@@ -225,7 +241,7 @@ Let m := MFlatten tag 0%N te.
 Lemma flatten_stage_rev : forall lf lf' st,
   xlate_layer sub m lf = Ok (lf', st) -> Forall (fun f => wf_sf f = true) lf ->
   forall pre (seg : list fvt),
-    map fst seg = lf' -> map (fun fv => fst (snd fv)) seg = map sf_ty lf' ->
+    map fst seg = lf' -> Forall2 conv_ok (map snd seg) (map sf_ty lf') ->
     NoDup (map fst (env_of (pre ++ seg))) ->
     rev_layer E subrev m st (pre ++ seg) (length pre) =
     Ok (map (fun f => (f, (sf_ty f, build_ty (sf_ty f)
@@ -238,7 +254,8 @@ Proof.
     rewrite recurse_outs_norec in H by reflexivity. simpl in H. dob H b Hb.
     destruct b as [lfr str]. simpl in H. injection H as El Est. subst st.
     rewrite <- El in Hf, Ht. clear El.
-    rewrite map_map in Hf, Ht. simpl in Hf, Ht. rewrite map_id in Hf.
+    assert (Eo : map fst (map (fun o : sfield => (o, (o, @None xstate))) outs) = outs) by (rewrite map_map; apply map_id).
+    rewrite Eo in Hf, Ht. rewrite map_app in Ht.
     (* split the segment *)
     set (k := length outs).
     assert (Ls : length seg = k + length lfr).
@@ -246,21 +263,18 @@ Proof.
     set (s1 := firstn k seg). set (s2 := skipn k seg).
     assert (Es : seg = s1 ++ s2) by (symmetry; apply firstn_skipn).
     assert (L1 : length s1 = k) by (unfold s1; rewrite firstn_length; lia).
-    rewrite map_id in Ht.
     assert (F1 : map fst s1 = outs).
     { unfold s1. rewrite <- firstn_map. transitivity (firstn k (outs ++ lfr)); [f_equal; exact Hf|].
       unfold k. rewrite firstn_app, firstn_all, Nat.sub_diag. simpl. now rewrite app_nil_r. }
     assert (F2 : map fst s2 = lfr).
     { unfold s2. rewrite <- skipn_map. transitivity (skipn k (outs ++ lfr)); [f_equal; exact Hf|].
       unfold k. rewrite skipn_app, skipn_all, Nat.sub_diag. reflexivity. }
-    assert (T1 : map (fun fv : fvt => fst (snd fv)) s1 = map sf_ty outs).
-    { unfold s1. rewrite <- firstn_map. transitivity (firstn k (map sf_ty (outs ++ lfr))); [f_equal; exact Ht|].
-      rewrite map_app. unfold k. rewrite <- (map_length sf_ty outs).
-      rewrite firstn_app, firstn_all, Nat.sub_diag. simpl. now rewrite app_nil_r. }
-    assert (T2 : map (fun fv : fvt => fst (snd fv)) s2 = map sf_ty lfr).
-    { unfold s2. rewrite <- skipn_map. transitivity (skipn k (map sf_ty (outs ++ lfr))); [f_equal; exact Ht|].
-      rewrite map_app. unfold k. rewrite <- (map_length sf_ty outs).
-      rewrite skipn_app, skipn_all, Nat.sub_diag. reflexivity. }
+    assert (T12 : Forall2 conv_ok (map snd s1) (map sf_ty outs) /\ Forall2 conv_ok (map snd s2) (map sf_ty lfr)).
+    { rewrite Es, map_app in Ht. apply Forall2_app_inv_l in Ht as (l1 & l2 & H1 & H2 & E12).
+      assert (Ll : length l1 = length (map sf_ty outs)).
+      { apply (Forall2_length _ _ _) in H1. rewrite <- H1, !map_length. exact L1. }
+      apply app_inj_len in E12; [| now rewrite Ll]. destruct E12 as [-> ->]. split; assumption. }
+    destruct T12 as [T1 T2].
     cbn [rev_layer me_in me_out sfo_name]. rewrite Wn. cbn [negb]. rewrite !map_length. fold k.
     destruct (Nat.ltb _ _) eqn:Lt.
     { apply Nat.ltb_lt in Lt. rewrite app_length in Lt. rewrite ?map_length in Lt. fold k in Lt. lia. }
@@ -270,10 +284,8 @@ Proof.
     unfold unmangle_field. cbn [me_in me_out]. rewrite map_map. cbn [snd].
     rewrite rec_unmangle_none. cbn [obind]. unfold m. cbn [unmangle].
     set (xs := map (fun fv : fvt => snd (snd fv)) s1).
-    assert (Hv : map snd s1 = combine (map sf_ty outs) xs).
-    { rewrite <- T1. unfold xs. clear. induction s1 as [|[a [b c]] q IHq]; simpl; [reflexivity | now rewrite <- IHq]. }
     assert (Lx : length xs = length outs) by (unfold xs; rewrite map_length; exact L1).
-    rewrite (flatten_unmangle_build tag te f outs s1 xs Wf Hm Lx Hv). cbn [obind].
+    rewrite (flatten_unmangle_build_conv tag te f outs s1 Wf Hm T1). fold xs. cbn [obind].
     (* by name *)
     assert (Xn : xs = map (valof (env_of (pre ++ seg))) (map enc0 (top_names f))).
     { destruct (flatten_order_l tag 0%N te f outs Wf Hm) as (_ & O1 & O2).
@@ -292,7 +304,7 @@ Proof.
       { exact Hn. }
       unfold env_of in V1 at 2 3. rewrite !map_map in V1. simpl in V1.
       rewrite !map_map. unfold xs. symmetry. exact V1. }
-    rewrite Xn.
+    change (map (fun fv : sfield * (ty * val) => snd (snd fv)) s1) with xs. rewrite Xn.
     specialize (IH lfr str eq_refl Wr (pre ++ s1) s2 F2 T2).
     rewrite <- app_assoc, <- Es in IH. rewrite app_length, L1 in IH.
     fold m. rewrite (IH Hn). reflexivity.
@@ -384,6 +396,45 @@ Proof.
   repeat split; f_equal; auto.
 Qed.
 
+Lemma leaves_nilable :
+  (forall t, (wf_ty t = true -> Forall (fun lt => can_nil lt = true) (leaves_ty t)) /\
+             (forall fs nm, t = TStruct fs nm -> wf_fields fs = true -> Forall (fun lt => can_nil lt = true) (leaves_fields fs))) /\
+  (forall fs, wf_fields fs = true -> Forall (fun lt => can_nil lt = true) (leaves_fields fs)).
+Proof.
+  assert (LEAF : forall t, can_nil t = true -> leaves_ty t = [t] -> Forall (fun lt => can_nil lt = true) (leaves_ty t)).
+  { intros t C L. rewrite L. constructor; [exact C | constructor]. }
+  apply ty_fields_ind.
+  - intros k nm. split; [intros W; discriminate | intros; discriminate].
+  - intros id pr. split; [intros W; discriminate | intros; discriminate].
+  - intros e [_ Hs]. split; [| intros; discriminate]. intros W.
+    destruct (wf_leaf_or_struct (TPtr e) W) as [(_ & Lv & _) | (fs & nm & Eq & Wf)].
+    + now apply LEAF.
+    + inversion Eq; subst. simpl. now apply (Hs fs nm).
+  - intros e IH nm. split; [| intros; discriminate]. intros W. now apply LEAF.
+  - intros n e IH. split; [intros W; discriminate | intros; discriminate].
+  - intros k IHk v IHv nm. split; [| intros; discriminate]. intros W. now apply LEAF.
+  - intros fs IH nm. split; [intros W; discriminate|]. intros fs' nm' Eq W. inversion Eq; subst. now apply IH.
+  - split; [| intros; discriminate]. intros W. now apply LEAF.
+  - split; [intros W; discriminate | intros; discriminate].
+  - split; [intros W; discriminate | intros; discriminate].
+  - intros _. constructor.
+  - intros n tg an t [IHt _] r IHr W. simpl in W.
+    apply andb_true_iff in W as [W Wr]. apply andb_true_iff in W as [W _]. apply andb_true_iff in W as [_ Wt].
+    simpl. apply Forall_app. split; [now apply IHt | now apply IHr].
+Qed.
+
+Lemma flat_layer_nilable sub tag te lf lf' st :
+  xlate_layer sub (MFlatten tag 0%N te) lf = Ok (lf', st) -> Forall (fun f => wf_sf f = true) lf ->
+  Forall (fun f => can_nil (sf_ty f) = true) lf'.
+Proof.
+  intros X W. destruct (flatten_layer_names sub tag te lf lf' st X W) as [_ Ty].
+  assert (F : Forall (fun lt => can_nil lt = true) (map sf_ty lf')).
+  { rewrite Ty. clear - W. induction W as [|f r Wf _ IH]; simpl; [constructor|].
+    apply Forall_app. split; [| exact IH]. apply (proj1 (proj1 leaves_nilable (sf_ty f))). apply (wf_sf_parts f Wf). }
+  clear - F. induction lf' as [|g r IH]; simpl in F; [constructor|].
+  apply Forall_cons_iff in F as [F1 F2]. constructor; auto.
+Qed.
+
 Theorem flatten_chain_spec_l : forall fuel E tag te fs nm tt x filled,
   wf_fields fs = true -> simple_fields fs = true ->
   translate fuel [MFlatten tag 0%N te] (TStruct fs nm) = Ok (tt, x) ->
@@ -409,7 +460,8 @@ Proof.
   assert (U : unpack_value (TStruct (pack lf') [], VStruct filled) = seg).
   { unfold unpack_value. rewrite unpack_pack. reflexivity. }
   rewrite U.
-  pose proof (flatten_stage_rev _ E (fun m sx sv => reverse n E [m] sx sv) tag te _ _ _ X Wl [] seg N2 N3 Hn) as R.
+  pose proof (flatten_stage_rev _ E (fun m sx sv => reverse n E [m] sx sv) tag te _ _ _ X Wl [] seg N2
+                (conv_of_exact seg lf' (flat_layer_nilable _ tag te _ _ _ X Wl) N3) Hn) as R.
   simpl app in R. simpl length in R. rewrite R. cbn [obind].
   rewrite (assemble_ok (unpack fs) (fun f => build_ty (sf_ty f) (map (valof (env_of seg)) (map enc0 (top_names f)))) Wl).
   cbn [obind].
